@@ -128,7 +128,15 @@ async def exchange(case):
         with vclock.frozen_epoch("UTC", case.get("ts", 1_700_000_000)):
             status, res = await cl.call(kind, a)
         sent = list(cl.conn.sent)
-        return status, res, list(cl.conn.frames[nbefore:]), sent, data
+        frames = list(cl.conn.frames[nbefore:])
+        # the caller tries again on the same object (state queries only): whatever the connection is worth by now, the
+        # retry must again end in a response or a RuntimeError
+        for _ in range(case.get("retries", 0)):
+            if kind in STATE_QUERIES:
+                st2, res2 = await cl.call(kind, a)
+                if st2 == "raise" and not isinstance(res2, RuntimeError):
+                    return "retry-raise", res2, frames, sent, data
+        return status, res, frames, sent, data
     finally:
         await cl.close()
 
@@ -139,6 +147,9 @@ def body(rep, case, sub=None):
     if status == "skip":
         rep.label("skipped(reader-not-accessible-or-pre-op-failed)")
         return
+    if status == "retry-raise":
+        raise Violation(f"C09/state-query-retry-raises-{type(res).__name__}/op={kind}", case, "a parsed response or RuntimeError",
+                        f"{type(res).__name__}: {res}")
     if case.get("pre"):
         rep.label("after-earlier-successful-operations")
     transient = fault["type"] == "empty-read"
@@ -231,7 +242,7 @@ def cases_grid(tier):
                 out.append({"kind": kind, "args": a, "step": step, "fault": {"type": "empty-read"}})
                 out.append({"kind": kind, "args": a, "step": step, "fault": {"type": "echo"}, "ts": 2 ** 31 + 5000 + step})
                 pre = ["get_state", "control_on"] if ops.api_type(kind) == 1 else ["get_shutter_state", "set_position"]
-                out.append({"kind": kind, "args": a, "step": step, "fault": {"type": "eof"}, "pre": pre[:1]})
+                out.append({"kind": kind, "args": a, "step": step, "fault": {"type": "eof"}, "pre": pre[:1], "retries": 2})
                 out.append({"kind": kind, "args": a, "step": step, "fault": {"type": "empty-read"}, "pre": pre})
                 rk = reply_kind(kind, step)
                 n = len(script[step]["data"])
@@ -260,7 +271,8 @@ def strat_garbage():
         same = ops.KINDS1 if ops.api_type(kind) == 1 else [k for k in ops.KINDS2]
         pre = st.one_of(st.just([]), st.lists(st.sampled_from(same), min_size=1, max_size=3))
         return st.builds(lambda a, step, f, salt, sess, pr, ts: _fit(dict({"kind": kind, "args": a, "step": step, "fault": f, "salt": salt,
-                                                                        "session": sess, "ts": ts}, **({"pre": pr} if pr else {}))),
+                                                                        "session": sess, "ts": ts, "retries": salt % 3},
+                                                                       **({"pre": pr} if pr else {}))),
                          gen.op_args(kind).map(c03._resolvable), st.integers(0, nsteps(kind) - 1), fault, st.integers(1, 100), gen.sessions, pre,
                          gen.timestamps)
     return st.sampled_from(ops.KINDS).flatmap(for_kind)
